@@ -68,3 +68,13 @@ Theorem C04_one_unsew_vertex_data `{Sig} : forall E n ks l c w cnt w' cnt',
     (il = ir -> vertex w' il = vertex w i0 /\ (i0 <> il -> vertex w' i0 = None)).
 Proof. exact one_unsew_vertex_data. Qed.
 Print Assumptions C04_one_unsew_vertex_data.
+
+(** Tie to the source: the four programs [one_sew], [one_unsew], [two_sew], [two_unsew] about which the theorems above
+    speak are, verbatim, the programs that tools/tr_sews.py regenerates from dim2/sews/one.rs and two.rs on every run
+    (Map2/GenSews.v); an edit of those functions changes the generated file and this theorem stops compiling. *)
+From HC Require Import Map2.GenSews Map2.GenSewsLaws.
+Theorem C04_sews_are_the_source `{Sig} :
+  (forall n ks l r, gen_one_sew n ks l r = one_sew n ks l r) /\ (forall n ks l, gen_one_unsew n ks l = one_unsew n ks l) /\
+  (forall n ks l r, gen_two_sew n ks l r = two_sew n ks l r) /\ (forall n ks l, gen_two_unsew n ks l = two_unsew n ks l).
+Proof. exact sews_are_the_source. Qed.
+Print Assumptions C04_sews_are_the_source.
